@@ -1233,7 +1233,8 @@ def case_func(case, ctx, teneva, rng):
                 H[0 if j == 0 else t, :, 0 if j == d - 1 else t] = \
                     G[0, :, 0] * (w[t] if j == 0 else 1.)
             R_.append(H)
-        if rng.random() < 0.6:
+        gauged = rng.random() < 0.6
+        if gauged:
             for j in range(1, d):
                 Mg = rng.normal(size=(q, q)) + 2 * np.eye(q)
                 R_[j - 1] = np.einsum('aib,bc->aic', R_[j - 1], Mg)
@@ -1249,8 +1250,16 @@ def case_func(case, ctx, teneva, rng):
                 <= 1)), 'optima_func_tt_beam (redundant ranks): result is '
                 'not a point of [-1, 1]^d', result=xr):
             valr = func_value(xr, A)
+            # known finding (mechanism): a mode whose LEADING coefficient is
+            # exactly 0 in the rank-1 factor carries it at rounding level
+            # (1e-16 relative) in the gauged block cores; the routine feeds
+            # the full-degree polynomial to the companion-matrix root finder,
+            # whose roots are then off by ~1e-3 (value ~1e-5 below the max)
+            noisy_lead = gauged and any(G.shape[1] >= 3 and G[0, -1, 0] == 0
+                for G in A)
             ctx.check('func-max-redundant', valr >= best * (1 - 10 * rtol -
-                1e-9) - 1e-300, lambda: f'optima_func_tt_beam(k={k}, '
+                1e-9) - 1e-300, kf='func-leading-coefficient-at-rounding-level'
+                if noisy_lead else None, msg=lambda: f'optima_func_tt_beam(k={k}, '
                 f'k_loc={k_loc}) on a rank-1 coefficient tensor stored with '
                 f'TT-ranks {q}: |f(x*)| = {valr!r} < max |f| = {best!r}',
                 x=xr, n=n)
